@@ -193,6 +193,11 @@ MUTATORS = {'append', 'add', 'update', 'clear', 'pop', 'setdefault', 'extend',
             'appendleft', 'popleft', 'cache_clear'}
 
 
+PROCESS_GLOBAL_SETTERS = {('sys', 'setrecursionlimit'), ('sys', 'setswitchinterval'), ('sys', 'set_int_max_str_digits'), ('sys', 'settrace'),
+                          ('sys', 'setprofile'), ('os', 'chdir'), ('os', 'putenv'), ('locale', 'setlocale'), ('random', 'seed'),
+                          ('warnings', 'simplefilter'), ('warnings', 'filterwarnings'), ('gc', 'disable'), ('gc', 'enable'), ('gc', 'set_threshold')}
+
+
 def footprint(repo):
     """module-level mutable bindings, lru_caches, and writers to them."""
     pkg = os.path.join(repo, 'selfies')
@@ -254,6 +259,13 @@ def footprint(repo):
                                     writers.append((mod, node.name, tgt, how))
                                     written.add(tgt)
                                     tgt = None
+                        elif isinstance(sub, ast.Call) and isinstance(sub.func, ast.Attribute) \
+                                and isinstance(sub.func.value, ast.Name) \
+                                and (sub.func.value.id, sub.func.attr) in PROCESS_GLOBAL_SETTERS:
+                            # state of the whole interpreter (shared by every thread and every later call): e.g. sys.setrecursionlimit
+                            n = sub.func.value.id + '.' + sub.func.attr
+                            writers.append((mod, node.name, n, 'process-global'))
+                            shared.append((mod, n, 'process-global'))
                         elif isinstance(sub, ast.Call) and isinstance(sub.func, ast.Attribute) \
                                 and sub.func.attr in MUTATORS and isinstance(sub.func.value, ast.Name):
                             n = sub.func.value.id
